@@ -1,5 +1,5 @@
 #!/usr/bin/env python3
-"""usage: tools/harmtest.py <root with Cxx/i/patch.diff> [-j N] [only...]
+"""usage: tools/harmtest.py <root: /verif/harmless (Cxx-i/patch.diff) or Cxx/i/patch.diff> [-j N] [only...]
 Runs, for every harmless (behaviour-preserving) patch, the quick checks of the owning property and of every property
 whose modelled code the patch touches, against a private clone (tools/seedtest.sh).  Expected verdict: rc=0.
 Prints one line per (patch, property)."""
@@ -48,13 +48,20 @@ def main():
         else:
             only.append(a.pop(0))
     jobs = []
-    for pid in sorted(os.listdir(root)):
-        for i in sorted(os.listdir(os.path.join(root, pid))):
-            d = os.path.join(root, pid, i)
-            if not os.path.exists(d + "/patch.diff") or (only and pid not in only and "%s/%s" % (pid, i) not in only):
-                continue
-            for p in props_for(pid, d + "/patch.diff"):
-                jobs.append((d, p))
+    dirs = []
+    for name in sorted(os.listdir(root)):          # layout Cxx/<i>/ (agents' output) or Cxx-<i>/ (/verif/harmless)
+        full = os.path.join(root, name)
+        if os.path.exists(full + "/patch.diff"):
+            dirs.append((name[:3], name, full))
+        elif os.path.isdir(full):
+            for i in sorted(os.listdir(full)):
+                if os.path.exists(os.path.join(full, i, "patch.diff")):
+                    dirs.append((name, "%s/%s" % (name, i), os.path.join(full, i)))
+    for pid, label, d in dirs:
+        if only and pid not in only and label not in only:
+            continue
+        for p in props_for(pid, d + "/patch.diff"):
+            jobs.append((d, p))
 
     def run(job):
         d, p = job
